@@ -9,6 +9,7 @@ from pyval import enc, norm, norm_res, exc_code
 import yamlfs
 from yamlfs import DIR
 
+import vinegar.data_source
 from vinegar.data_source.yaml_target import YamlTargetSource
 
 CURRENT_VARIANTS = [1, 0, 0, 0]      # tag_after, rerender, empty_raises, marker_compared  (what /repo does now)
@@ -33,6 +34,10 @@ def run_real(c):
                 root = os.path.join(base_dir, "cur rent")
                 os.symlink(os.path.basename(real) if "/" not in c["rootname"] else real, root)
         yamlfs.materialise(c["tree"], root)
+        if c.get("sibling_text") is not None:
+            # a file called like the root directory, next to it (above the tree root: no name may reach it)
+            with open(root.rstrip("/") + ".yaml", "w", encoding="utf-8") as f:
+                f.write(c["sibling_text"])
         if c.get("faults"):
             with yamlfs.Faults(root, c["faults"]):
                 return _get_once(c, root)
@@ -46,7 +51,12 @@ def _get_once(c, root):
     cfg = {"root_dir": root, "template": "jinja" if c["engine"] else None, "merge_lists": c["ml"], "merge_sets": c["ms"],
            "allow_empty_top": c["allow_empty"], "cache_size": c.get("cache_size", 64)}
     cfg.update(c.get("raw_config") or {})
-    src = YamlTargetSource(cfg)
+    # the source is created the way the server wires data sources: through the factory (get_data_source -> get_instance);
+    # every third case constructs the class directly
+    if c.get("factory", True):
+        src = vinegar.data_source.get_data_source("yaml_target", cfg)
+    else:
+        src = YamlTargetSource(cfg)
     pd = copy.deepcopy(c["pd"])
     try:
         d, v = src.get_data(c["sys"], pd, c["pv"])
@@ -368,6 +378,44 @@ class C11(Check):
                 yield {"tree": tree, "engine": False, "ml": ml, "ms": True, "allow_empty": False, "sys": "s1", "pd": {}, "pv": ""}
         for i, tree in enumerate(limit_family()):
             yield {"tree": tree, "engine": bool(i % 2), "ml": False, "ms": True, "allow_empty": False, "sys": "s1", "pd": {}, "pv": ""}
+        # names that are white space only or carry leading / trailing white space (quoted or templated), in top lists and
+        # include lists, with an init.yaml in the tree root and a file called like the root directory next to it: such a
+        # name is a (most likely missing) file of exactly that name - never the empty name, never the root's init.yaml
+        ws_names = ["' '", "'  '", "\"\\t\"", "' a'", "'a '", "' a '", "'. '", "' .a'", "'.a '", "'a. '", "'a .b'", "\"\\u00a0\"", "\"a\\n\""]
+        base_ws = {"init.yaml": "rootinit: 1\n", "a.yaml": "k: 1\n", "a /init.yaml": "k: padded\n", " a.yaml": "k: lead\n", "b.yaml": "m: 1\n"}
+        for nm in ws_names:
+            trees = [dict(base_ws, **{"top.yaml": "'*': [c]\n", "c.yaml": "q: 1\ninclude: [%s]\n" % nm}),
+                     dict(base_ws, **{"top.yaml": "'*': [d.e]\n", "d/e.yaml": "q: 1\ninclude: [%s]\n" % nm, "d/init.yaml": "dinit: 1\n"})]
+            if not nm.startswith("'."):          # in a top list a leading dot gives an empty segment (outside the model)
+                trees += [dict(base_ws, **{"top.yaml": "'*': [%s]\n" % nm}), dict(base_ws, **{"top.yaml": "'*': [b, %s]\n" % nm})]
+            for tree in trees:
+                yield {"tree": tree, "engine": False, "ml": False, "ms": True, "allow_empty": False, "sys": "s1", "pd": {}, "pv": "",
+                       "rootname": "treeroot", "sibling_text": "above: 1\n"}
+        for pd, pv in (({}, ""), ({"role": "b"}, "v1"), ({"role": " "}, "v2")):
+            for tree in (dict(base_ws, **{"top.yaml": "'*': [\"{{ data.get('role', '') }} \"]\n"}),
+                         dict(base_ws, **{"top.yaml": "'*': [c]\n", "c.yaml": "include: [\" {{ data.get('role', '') }}\"]\n"})):
+                yield {"tree": tree, "engine": True, "ml": False, "ms": True, "allow_empty": False, "sys": "s1", "pd": pd, "pv": pv,
+                       "rootname": "treeroot", "sibling_text": "above: 1\n"}
+        # text that a template engine would treat as markup, with templating switched off (template: None) and on; the
+        # source is created through the factory and directly
+        markup = [{"top.yaml": "'*': [a, b]\n# {% if id == 's1' %}\n's1': [c]\n# {% endif %}\n", "a.yaml": "k: '{{ later }}'\nm: \"{# note #}x\"\n",
+                   "b.yaml": "# {{ id }}\nn: '{% raw %}'\ninclude: [c]\n", "c.yaml": "o: '{{ 1 + 1 }}'\n"},
+                  {"top.yaml": "'{{ id }}': [a]\n'*': [b]\n", "a.yaml": "k: 1\n", "b.yaml": "m: '{{ data }}'\n"},
+                  {"top.yaml": "'*': [a]\n", "a.yaml": "k: '{%'\n"},
+                  {"top.yaml": "'*': [a]\n", "a.yaml": "{% if id == 's1' %}k: 1{% endif %}\n"}]
+        for tree in markup:
+            for engine in (False, True):
+                for factory in (True, False):
+                    for sysid in ("s1", "s2"):
+                        yield {"tree": tree, "engine": engine, "ml": False, "ms": True, "allow_empty": False, "sys": sysid, "pd": {"x": 1}, "pv": "v1",
+                               "factory": factory}
+        # documented None / "" / defaulted option values handed to the factory
+        for tree in directed()[:5] + markup[:2]:
+            for raw in ({"template": None, "template_config": {}, "cache_size": 0}, {"template": None, "file_suffix": ".yaml", "merge_lists": None},
+                        {"template": "jinja", "template_config": {}, "allow_empty_top": None, "merge_sets": None}):
+                yield {"tree": tree, "engine": raw["template"] is not None, "ml": bool(raw.get("merge_lists", False)),
+                       "ms": bool(raw.get("merge_sets", True)) if "merge_sets" in raw else True, "allow_empty": False,
+                       "raw_config": raw, "sys": "s1", "pd": {}, "pv": "", "factory": True}
         # root_dir with unusual characters / as a symbolic link, logging levels, YAML tags giving tuples, bytes, dates
         exotic = {"top.yaml": "'*': [a, b]\n", "a.yaml": "bo: !!omap [ disk: {timeout: 5}, net: [1, 2] ]\nbin: !!binary aGVsbG8=\nwhen: 2001-12-14\n",
                   "b.yaml": "bo: !!pairs [ a: {x: 1}, a: [2] ]\nst: !!set {a: null}\ninclude: [c]\n", "c.yaml": "bo: !!omap [ disk: {timeout: 6} ]\n"}
